@@ -115,6 +115,10 @@ struct DisabledTerminalIn;
 
 impl common::TerminalIn for DisabledTerminalIn {
     fn read_line(&mut self, _: Option<&str>, _: &mut String) -> std::io::Result<()> {
-        todo!()
+        // TeX.2021.484: "*** (cannot \read from terminal in nonstop modes)" is a fatal error.
+        Err(std::io::Error::new(
+            std::io::ErrorKind::Unsupported,
+            "cannot \\read from terminal in nonstop modes",
+        ))
     }
 }
